@@ -74,7 +74,7 @@ fn a_aad(rng: &mut Rng) -> Arg {
         return Arg::B(pat(n, 11));
     }
     let p = bytes_palette();
-    Arg::B(p[rng.weighted(&[14, 8, 14, 12, 4, 4, 2, 2, 1, 0, 0])].clone())
+    Arg::B(p[rng.weighted(&[140, 80, 140, 120, 40, 40, 20, 20, 10, 3, 3])].clone())
 }
 fn a_payload(rng: &mut Rng) -> Arg {
     if rng.chance(1, 8) {
